@@ -47,7 +47,7 @@ where
             ));
         }
     }
-    let it: Seq = l.iter().collect();
+    let it: Seq = l.iter().take(model.len() + 8).collect();
     if it != model {
         return Err(format!("{}: iter() disagrees with get()", what));
     }
